@@ -79,3 +79,19 @@ extern "C" CK_RV vp_GetMechanismInfo(void)
 	OUT(info_min) = info.ulMinKeySize; OUT(info_max) = info.ulMaxKeySize; OUT(info_flags) = info.flags;
 	return rv;
 }
+
+// ---- C_DeriveKey: the four derive* members are recorded effects (their bodies: units softhsm_derive / softhsm_derive_asym)
+static CK_RV der(int kind, CK_SESSION_HANDLE hSession, CK_MECHANISM_PTR pMechanism, CK_OBJECT_HANDLE hBaseKey, CK_ULONG ulCount, CK_KEY_TYPE keyType, CK_BBOOL tok, CK_BBOOL priv)
+{
+	OUT(der_n)++; SFX(CREATE_N)++; OUT(der_kind) = kind; OUT(der_hsess) = hSession; OUT(der_mech) = pMechanism->mechanism; OUT(der_hbase) = hBaseKey; OUT(der_cnt) = ulCount;
+	OUT(der_keytype) = keyType; OUT(der_tok) = tok; OUT(der_priv) = priv;
+	return IN(gen_rv);
+}
+#define DER(name, kind) CK_RV SoftHSM::name(CK_SESSION_HANDLE hSession, CK_MECHANISM_PTR pMechanism, CK_OBJECT_HANDLE hBaseKey, CK_ATTRIBUTE_PTR, CK_ULONG ulCount, CK_OBJECT_HANDLE_PTR, \
+	CK_KEY_TYPE keyType, CK_BBOOL isOnToken, CK_BBOOL isPrivate) { return der(kind, hSession, pMechanism, hBaseKey, ulCount, keyType, isOnToken, isPrivate); }
+DER(deriveDH, D_DH) DER(deriveECDH, D_ECDH) DER(deriveEDDSA, D_EDDSA) DER(deriveSymmetric, D_SYM)
+extern "C" CK_RV vp_DeriveKey(void)
+{
+	MK; CK_ATTRIBUTE vp_tmplA[VP_TA]; CK_ULONG vals[VP_TA]; mk_tmpl(&vp_tmplA[0], &vals[0], &vp_in_ta[0]); CK_OBJECT_HANDLE h = 0;
+	return hsm->C_DeriveKey(SES(HSESSION), pMech, SES(HARG0), IN(tNullA) ? (CK_ATTRIBUTE_PTR)0 : &vp_tmplA[0], IN(countA), IN(phNullA) ? (CK_OBJECT_HANDLE_PTR)0 : &h);
+}
